@@ -585,7 +585,7 @@ func mergeItems(a, b *item) (*item, bool) {
 	}
 	for id, oa := range a.st.heap {
 		if ob, ok := b.st.heap[id]; ok && oa != ob {
-			if oa.Kind != ob.Kind || !types.Identical(oa.Typ, ob.Typ) || (oa.Kind == KCell && !canMerge(oa.Val, ob.Val)) || len(oa.Elems) != len(ob.Elems) || len(oa.Entries) != len(ob.Entries) {
+			if oa.Kind != ob.Kind || !types.Identical(oa.Typ, ob.Typ) || (oa.Kind == KCell && !canMerge(oa.Val, ob.Val)) || len(oa.Elems) != len(ob.Elems) || len(oa.Entries) != len(ob.Entries) || (keepGeometry && oa.Kind == KBytes && oa.Arr != ob.Arr) {
 				return nil, false
 			}
 		}
